@@ -146,20 +146,32 @@ def run(cfg, rec, c07):
     rec.validate("pfid", {}, {"ok": True})
 
 
-def float_case(cfg, rng, c07):
-    """Real float PFID matrix against the closed form with scipy's complex erf at a generic point."""
+def float_case(cfg, rng, c07, env=None, wide=False):
+    """Real float PFID matrix against the closed form with scipy's complex erf at a generic point.  `env`: a solver model - its
+    *geometry* (IRF centres, widths, shifts, time points: what decides on which side of the 5-sigma cut a point lies) is used,
+    frequencies and rates stay generic.  `wide`: shifts of several IRF widths in either direction."""
     from scipy.special import erf as cerf
 
     ng = cfg["ngauss"]
-    v = {"f0": float(rng.uniform(1500, 1700)), "g0": -float(rng.uniform(0.2, 3)), "sh0": float(rng.uniform(-0.3, 0.3)),
-         "sh1": float(rng.uniform(-0.3, 0.3)), "ax": float(rng.uniform(0.5, 0.9))}
+    sh_rng = 1.6 if wide else 0.3
+    v = {"f0": float(rng.uniform(1500, 1700)), "g0": -float(rng.uniform(0.2, 3)), "sh0": float(rng.uniform(-sh_rng, sh_rng)),
+         "sh1": float(rng.uniform(-sh_rng, sh_rng)), "ax": float(rng.uniform(0.5, 0.9))}
     if cfg["axis"] == "inverted":
         v["ax"] = 1e7
         v["f0"] = float(rng.uniform(5800, 6600))  # nm -> cm^-1 around 1500-1700
     for g in range(ng):
         v.update({f"mu{g}": float(rng.uniform(-0.2, 0.4)), f"sig{g}": float(rng.uniform(0.05, 0.3)), f"sc{g}": float(rng.uniform(0.5, 2))})
-    mc, dm = build(cfg, lambda nm: v[nm], c07._param)
     t = np.array([float(rng.uniform(-2.0, -0.2)), float(rng.uniform(0.0, 2.5))])
+    if env:
+        try:
+            geo = {k: float(env[k]) for k in list(v) if k[:2] in ("sh", "mu", "si") and k in env}
+            tt = [float(env[f"t{a}"]) for a in range(2)]
+            if all(abs(x) < 1e3 for x in list(geo.values()) + tt) and all(geo.get(f"sig{g}", 1) > 1e-3 for g in range(ng)) and tt[0] < tt[1]:
+                v.update(geo)
+                t = np.array(tt)
+        except (KeyError, TypeError, ValueError):
+            pass
+    mc, dm = build(cfg, lambda nm: v[nm], c07._param)
     f_eff = v["ax"] / v["f0"] if cfg["axis"] == "inverted" else v["f0"] * v["ax"] if cfg["axis"] == "scaled" else v["f0"]
     nu = np.sort(f_eff + rng.uniform(-30, 30, 2))
     labels, m = mc.calculate_matrix(dm, nu, t)
